@@ -234,7 +234,7 @@ pub fn rand_select(r: &mut R, tabs: &[Tab], allow_join: bool) -> Select {
         }
         if r.random_range(0..10) < 3 {
             s.limit = r.random_range(0..6);
-            if r.random_bool(0.5) { s.offset = r.random_range(0..4); }
+            if r.random_bool(0.5) { s.offset = *pick(r, &[0i64, 1, 2, 3, 3, 7, 60]); }   // also beyond the number of rows the input produces
         }
     }
     s
@@ -973,7 +973,7 @@ fn seg_vac(run: &mut Runner, r: &mut R, stats: &mut serde_json::Value) {
 
 pub fn rand_cfg(r: &mut R, small_pages_ok: bool) -> axmosdb::DBConfig {
     let page = if small_pages_ok { *pick(r, &[4096usize, 8192, 16384, 65536]) } else { *pick(r, &[16384usize, 32768, 65536]) };
-    crate::eng::cfg(page, *pick(r, &[32usize, 64, 256, 2000, 10000]), *pick(r, &[1usize, 2, 8]), *pick(r, &[3usize, 4, 8]), *pick(r, &[1usize, 2, 3]))
+    crate::eng::cfg(page, *pick(r, &[6usize, 12, 32, 64, 256, 2000, 10000]), *pick(r, &[1usize, 2, 8]), *pick(r, &[3usize, 4, 8]), *pick(r, &[1usize, 2, 3]))
 }
 
 /// C09: histories split at arbitrary points by flush / close / open with arbitrary configuration values
@@ -1058,11 +1058,14 @@ fn seg_cfg(run: &mut Runner, wseed: u64, cfg: axmosdb::DBConfig, checkpoints: bo
     for i in 0..n {
         if run.hung { return; }
         let ti = r.random_range(0..nt);
+        // a cache of a handful of pages cannot hold the pages a multi-row UPDATE / DELETE latches until it ends
+        // (finding SmallCacheFailsStatements): the draw is made anyway so that every configuration sees the same statements otherwise
+        let tiny = cfg.cache_size < 32;
         match r.random_range(0..10) {
-            0 | 1 => { let s = rand_delete(r, &tabs[ti], 0, 1); run.auto(&s); }
-            2 if tabs[ti].updatable => { let s = rand_update(r, &tabs[ti], 0, 1); run.auto(&s); }
+            0 | 1 => { let s = rand_delete(r, &tabs[ti], 0, 1); if !tiny { run.auto(&s); } }
+            2 if tabs[ti].updatable => { let s = rand_update(r, &tabs[ti], 0, 1); if !tiny { run.auto(&s); } }
             3 => { if run.begin(1).is_ok() { let s = rand_insert(r, &mut tabs[ti], 0, 1, false); run.stmt(1, &s); if r.random_bool(0.5) { run.rollback(1); } else if run.commit(1).is_ok() { note_insert(&mut tabs[ti], &s); } } }
-            4 | 5 => { let q = rand_select(r, &tabs, true); run.auto(&Stmt::Select(q)); }
+            4 | 5 => { let q = rand_select(r, &tabs, false); run.auto(&Stmt::Select(q)); }   // single-table: joins over tables of this size cost TLC minutes and are covered by the sql / plan kinds
             _ => {
                 // aggregate over everything: touches every page
                 let t = &tabs[ti];
@@ -1093,6 +1096,9 @@ fn seg_ddl(run: &mut Runner, r: &mut R, stats: &mut serde_json::Value) {
     for _ in 0..n {
         if run.hung { return; }
         counter += 1;
+        // an older transaction that stays open (idle) while the DDL runs: catalog rows must carry their creator's id, not the oldest active one
+        let idle = r.random_bool(0.3) && run.begin(2).is_ok();
+        if idle && r.random_bool(0.5) { run.stmt(2, &Stmt::Select(select_all(&keep))); }
         let in_session = r.random_bool(0.45);
         let s: u32 = if in_session { 1 } else { 0 };
         if in_session && !run.begin(1).is_ok() { continue; }
@@ -1147,6 +1153,7 @@ fn seg_ddl(run: &mut Runner, r: &mut R, stats: &mut serde_json::Value) {
             if will_commit { if run.commit(1).is_ok() { live.retain(|t| !dropped.contains(&t.def.name)); live.extend(created); } }
             else { if r.random_bool(0.5) { run.rollback(1); } else { run.drop_session(1); } }
         } else { live.extend(created); }
+        if idle { if r.random_bool(0.5) { run.commit(2); } else { run.rollback(2); } }
         // other tables are never disturbed; every live table reads back
         run.auto(&Stmt::Select(select_all(&keep)));
         for t in &live { run.auto(&Stmt::Select(select_all(t))); }
